@@ -383,6 +383,7 @@ fn strategy_clone(_: &Ctx) -> BoxedStrategy<CloneCase> {
 
 pub fn subs() -> Vec<Box<dyn Sub>> {
     vec![
+        Box::new(super::fuzzsub::FuzzSub { target: "fuzz_build", name: "fuzz-build", runs: 20_000_000, quick_runs: 600_000, max_len: 512 }),
         Box::new(PropSub::<Case> {
             name: "new_boxed",
             rule: "new_boxed::<T>(header, slices) for T in {DynSizedStructure<DummyTestHeader>, DummyDstTag, DynSizedStructure<TagHeader>, DynSizedStructure<HeaderTagHeader>, DynSizedStructure<BootInformationHeader>, DynSizedStructure<Multiboot2BasicHeader>, and the tag kinds with a sized part behind the header ModuleTag, MemoryMapTag, SmbiosTag, EFIMemoryMapTag, ElfSectionsTag, FramebufferTag, CommandLineTag (content that cannot form the kind may be rejected by a panic; anything returned obeys the same law)} under a recording global allocator. Enumerated completely: every composition of total length 0..=12 (thorough 17) into 0..=4 slices (empty slices allowed) x 13 targets; generated: up to 6 slices of up to 60 random bytes, sometimes one of ~4 KiB, ~8 KiB or ~64 KiB (structures across the page / 16-bit marks); in a quarter of the cases the slices are ranges of ONE buffer - the pieces of a partition in another order, a piece twice, overlapping pieces. Oracle: exactly one alloc(size = r8(header + sum), align 8) whose pointer is the Box; header size word == header + sum; bytes after the header == concatenation; size_of_val == r8(total); clone_dyn equal up to the size with one allocation of the same layout; drop = exactly one dealloc with the same pointer and layout (for the box and for the clone). Non-trivial = total not a multiple of 8, an empty slice, or >=3 slices; distinct by (target, slices)",
